@@ -57,6 +57,17 @@ impl PropCase for Enc {
                 format!("yielded {:02x?} after the end", es.late)
             );
         }
+        // the Iterator adapters that iterate internally must produce the same frame
+        if p.len() <= 600 {
+            let ad = encode_streaming_adapters(p);
+            let wsum: u64 = want.iter().map(|b| *b as u64).sum();
+            ensure!(
+                ad.folded == want && ad.for_each == want && ad.collected_ext == want && ad.count == want.len() && ad.last == want.last().copied() && ad.sum == wsum,
+                "encode_streaming/iterator-adapters",
+                format!("fold / for_each / extend give {} ; count {} ; last {:?}", want_s, want.len(), want.last()),
+                format!("fold {} ; for_each {} ; extend {} ; count {} ; last {:?} ; sum {} (want {})", hex_short(&ad.folded), hex_short(&ad.for_each), hex_short(&ad.collected_ext), ad.count, ad.last, ad.sum, wsum)
+            );
+        }
         // Iterator contract of the iterator encoder: size_hint() brackets the real frame length
         {
             let (lo, hi) = encoder_size_hint(p);
